@@ -55,6 +55,18 @@ CHECKS = {
         note="Integer masses / costs (or costs / 7); dual potentials for recorded instances come from an independent HiGHS "
              "solve and are only trusted after TLC accepted them.",
         tech="TLA+ specification of the transportation LP with TLC-enumerated optima + certificate validation of recorded runs"),
+    "C18": dict(
+        cat="model_checking", ref="5 (C18), 4.14",
+        text="SparseOps.tla transcribes the two-pointer merges of sparse_sum/diff/mul, arr_union/intersect and dense_union "
+             "and TLC checks, for every pair of sparse vectors in the bounded model, equality with dense arithmetic in "
+             "indices and values, canonical output and buffer bounds; Dist.tla gives exact rational total variation, "
+             "Kantorovich p=1 and Hellinger (perfect-square entries) and TLC checks symmetry, range, zero exactly on "
+             "proportional pairs and the triangle inequality on all triples. Every instance is replayed through the dense "
+             "and sparse functions (swapped and positively rescaled arguments, inputs compared before/after); axiom events "
+             "recorded on random vectors (dimension 1..50, heavy tails, disjoint supports) are decided by Trace_Dist.tla.",
+        note="Exact values only where a rational closed form exists; Jensen-Shannon / symmetric KL are checked against the "
+             "stated axioms (finite, non-negative, symmetric, zero on proportional inputs, sparse = dense) only.",
+        tech="algorithmic + functional TLA+ specifications, TLC enumeration replayed into the code, trace validation of axiom events"),
     "C19": dict(
         cat="model_checking", ref="5 (C19), 4.15",
         text="SlidingWindow.tla states the documented meaning (padding, number of windows, window i = elements "
